@@ -53,6 +53,15 @@ chk("C11", "model_checking", "E5-fragment-search",
     "All write/flush/init interleavings over a timeline alphabet (steps 0, 1, 3000, 3003, 100000, rejected -1; start DTS 0 and 9000) to the depth bound: per-segment durations, composition offsets and sync flags against the submitted values; base decode time monotone, never before the previous segment's last sample, constant offset for constant-interval streams; init segment byte-identical on every request.",
     READER, "DESIGN.md §4 C11")
 
+chk("C13", "fault_enumeration", "E3-sink-fault-explorer",
+    "exhaustive enumeration of sink fault schedules (every failing call, every byte budget, all schedules with a bounded number of short/interrupted answers) on the real finish path",
+    "For representative histories of every layout the sink's answer to each write call is scripted: failure at every call with five error kinds, every byte budget, all schedules with <= 2 (thorough 3) deviations over {1 byte, half, Interrupted}, full menu product for tiny files, and all 2-call continuations after the finish attempt. Accepted bytes must be a prefix of the fault-free file, finish must fail iff a write ultimately failed, and nothing may be written outside the first finish attempt.",
+    "Trusted base: the scripted sink (harness/mc/src/faults.rs). A sink answering Interrupted forever is excluded.", "DESIGN.md §4 C13")
+chk("C14", "exploration", "E2-input-enumerator",
+    "exhaustive small-scope enumeration of byte strings and ADTS header fields against reference splitters written from the statement",
+    "All byte strings up to 13 (thorough 15) bytes over {00,01,02} and up to 8 (9) over {00,01,03,65,FF}, constructive unit lists, and all 8192 ADTS frame lengths x protection x buffer length x field variants, through the public conversion functions and through a real muxer with the stored sample read back.",
+    "Trusted base: reference splitter / ADTS parser in harness/oracle/src/refmodel.rs; the independent reader.", "DESIGN.md §4 C14")
+
 NOT_YET = {
 }
 
